@@ -3,6 +3,9 @@ package h
 import (
 	"errors"
 	"fmt"
+	"regexp"
+	"runtime"
+	"strings"
 	"sync/atomic"
 	"time"
 
@@ -66,20 +69,47 @@ type Prim interface {
 // ClientIDs are the client instances every back end keeps.
 var ClientIDs = []string{"c1", "c2"}
 
-// HangTimeout is how long one call of the real client may take before it is recorded as hanging (a leaked lock, a loop).
-// Calls take microseconds; the bound is generous so that a loaded machine cannot cause it.
-var HangTimeout = 30 * time.Second
+// HangTimeout is how long one call of the real client may take before the harness LOOKS at it. Calls take microseconds.
+var HangTimeout = 20 * time.Second
+
+// HangGiveUp bounds the waiting for a call that is slow but not blocked (a starved machine); beyond it the call is reported as crashed.
+var HangGiveUp = 15 * time.Minute
 
 // hangState is embedded in a back end. hung is set when a call did not return: the goroutine (and any lock it holds) is lost, so the
-// remaining calls of the trace to THAT back end are answered "crash" at once instead of waiting HangTimeout each; Reset (new
-// clients) clears it.
+// remaining calls of the trace to THAT back end are answered "crash" at once instead of waiting each; Reset (new clients) clears it.
 type hangState struct{ hung atomic.Bool }
 
 func (h *hangState) resetHang() { h.hung.Store(false) }
 
+var goroutineLine = regexp.MustCompile(`(?m)^goroutine (\d+) \[([^\]]*)\]:`)
+
+// goroutineID of the caller, read from its own stack header.
+func goroutineID() string {
+	buf := make([]byte, 64)
+	buf = buf[:runtime.Stack(buf, false)]
+	if m := goroutineLine.FindSubmatch(buf); m != nil {
+		return string(m[1])
+	}
+	return ""
+}
+
+// goroutineState returns the scheduler state of a goroutine ("running", "runnable", "sync.Mutex.Lock", "chan receive", ...), "" if gone.
+func goroutineState(id string) string {
+	buf := make([]byte, 1<<20)
+	buf = buf[:runtime.Stack(buf, true)]
+	for _, m := range goroutineLine.FindAllSubmatch(buf, -1) {
+		if string(m[1]) == id {
+			return string(m[2])
+		}
+	}
+	return ""
+}
+
 // guard runs one call, turning a panic into a response: the library's documented panic (a panic whose
 // value wraps the interpreter's syntax / unsupported errors, core/table.go interpreterMatch) is class
-// "panic_syntax"; any other panic is "crash"; a call that does not return within HangTimeout is "crash" too.
+// "panic_syntax"; any other panic is "crash". A call that has not returned after HangTimeout is examined: if its goroutine is
+// BLOCKED (on a mutex, a channel, a condition ...) it hangs and is "crash"; if it is running or runnable the machine is merely
+// slow and the harness keeps waiting (a loaded machine must never look like a deadlock).
 func (h *hangState) guard(f func() *Resp) *Resp {
 	if h.hung.Load() {
 		r := NewResp()
@@ -88,16 +118,26 @@ func (h *hangState) guard(f func() *Resp) *Resp {
 		return r
 	}
 	done := make(chan *Resp, 1)
-	go func() { done <- guarded(f) }()
-	select {
-	case r := <-done:
-		return r
-	case <-time.After(HangTimeout):
-		h.hung.Store(true)
-		r := NewResp()
-		r.Err = "crash"
-		r.Msg = fmt.Sprintf("the call did not return within %s", HangTimeout)
-		return r
+	gid := make(chan string, 1)
+	go func() { gid <- goroutineID(); done <- guarded(f) }()
+	id := <-gid
+	start := time.Now()
+	for {
+		select {
+		case r := <-done:
+			return r
+		case <-time.After(HangTimeout):
+			st := goroutineState(id)
+			blocked := st != "" && !strings.HasPrefix(st, "running") && !strings.HasPrefix(st, "runnable") && !strings.HasPrefix(st, "GC") &&
+				!strings.HasPrefix(st, "sleep") && !strings.HasPrefix(st, "syscall")
+			if blocked || time.Since(start) > HangGiveUp {
+				h.hung.Store(true)
+				r := NewResp()
+				r.Err = "crash"
+				r.Msg = fmt.Sprintf("the call did not return within %s; its goroutine is [%s]", time.Since(start).Round(time.Second), st)
+				return r
+			}
+		}
 	}
 }
 
